@@ -75,6 +75,7 @@ var queryFmtOpts = func() []fmtOpts {
 }()
 
 func formatQuery(doc *ast.QueryDocument, o fmtOpts) (text string, crash string) {
+	defer guard("formatter.FormatQueryDocument", o.String())()
 	defer func() {
 		if r := recover(); r != nil {
 			crash = fmt.Sprintf("panic: %v", r)
@@ -96,6 +97,7 @@ type fmtRound struct {
 
 // queryRoundTrip: parse src, format, parse again, format again
 func queryRoundTrip(src string, o fmtOpts) (r fmtRound, parsed bool) {
+	defer guard("parse, format, parse, format ("+o.String()+")", src)()
 	d0, err := parser.ParseQuery(&ast.Source{Input: src, Name: "q"})
 	if err != nil {
 		return r, false
